@@ -3,6 +3,7 @@
 # Runs one check against a scratch copy of /repo with a patch applied (or at a given revision), without touching /repo.
 set -u
 SPEC="$1"; shift
+case "$SPEC" in commit:*) ;; *) SPEC="$(realpath "$SPEC")" ;; esac
 SCR=$(mktemp -d /tmp/rwsv-mut-XXXXXX)
 trap 'rm -rf "$SCR"' EXIT
 case "$SPEC" in
